@@ -124,7 +124,7 @@ Definition funs_of (ft : list fdef) (id : nat) : option mfundef := option_map fu
 
 (* the language of the model *)
 Definition ML : lang (list ch) Token.tok mop Expr.sval song vv nat merr :=
-  mkLang _ _ _ _ _ _ _ _ list_eqb t_Result view_vv VV Expr.to_b Expr.SNone (Expr.SInt 0) Expr.is_none m_incr m_atom m_op m_op_name
+  mkLang list_eqb t_Result view_vv VV Expr.to_b Expr.SNone (Expr.SInt 0) Expr.is_none m_incr m_atom m_op m_op_name
          m_unbound m_print m_limit m_decl m_N.
 
 (* ---- states of the model as configurations of the semantics ---- *)
@@ -321,7 +321,7 @@ End EtokInd.
 Lemma rbind_stuck {A B} (r : mresult A) (f : A -> mresult B) : r = Stuck -> rbind r f = Stuck.
 Proof. intros ->. reflexivity. Qed.
 
-Ltac fail_case := cbn [Base.bind rbind rmap result_to_res]; split; [reflexivity | apply wf_out_other; intros ? E; discriminate E].
+Ltac fail_case := cbn [Base.bind rbind rmap result_to_res]; split; [reflexivity | apply wf_out_other; let H := fresh "Hd" in intros ? H; discriminate H].
 
 Section Level.
   Variable ft : list fdef.
@@ -533,7 +533,7 @@ Section Level.
 
   (* ---- loops ---- *)
   Lemma add_log_set_flag w f msg : add_log (s_set_break_flag w f) msg = s_set_break_flag (add_log w msg) f.
-  Proof. unfold add_log. destruct w; cbn [s_logs s_set_break_flag s_set_logs]. destruct (_ <=? _); reflexivity. Qed.
+  Proof. unfold add_log. destruct w; unfold s_set_break_flag, s_set_logs; cbn. destruct (_ <=? _); reflexivity. Qed.
   Lemma add_log_flag w msg : s_break_flag (add_log w msg) = s_break_flag w.
   Proof. unfold add_log. destruct (_ <=? _); [reflexivity|]. destruct w; reflexivity. Qed.
 
@@ -548,11 +548,11 @@ Section Level.
     destruct sg; cbn [sig_code cut_sig Z.eqb orb Pos.eqb]; rewrite ?set_flag_twice; reflexivity.
   Qed.
 
-  Lemma loop_halted_value m st : st_flag st <> 0 -> forall e, exec_value_o ec e st = Ok (Expr.SInt 0, st).
+  Lemma loop_halted_value st : st_flag st <> 0 -> forall e, exec_value_o ec e st = Ok (Expr.SInt 0, st).
   Proof. intros H e. unfold exec_value_o. destruct (st_flag st =? 0) eqn:E; [apply Z.eqb_eq in E; contradiction|]. reflexivity. Qed.
   Lemma for_loop_halted n cnd inc body line counter st :
     st_flag st <> 0 -> for_loop ec (S n) cnd inc body line counter st = Ok st.
-  Proof. intros H. cbn [for_loop]. rewrite (loop_halted_value true st H). reflexivity. Qed.
+  Proof. intros H. cbn [for_loop]. rewrite (loop_halted_value st H). reflexivity. Qed.
 
   Lemma sig_code_nz sg : sg <> Normal -> sig_code sg <> 0.
   Proof. destruct sg; cbn; intros H; try discriminate; contradiction. Qed.
@@ -576,7 +576,7 @@ Section Level.
       destruct (HB body m c1 W1 Hok) as [E2 W2]. { intros E. apply Hns. rewrite E. reflexivity. }
       rewrite E2. destruct (blk (prog_of body) c1) as [[sg c2]|[s| |w]| |] eqn:R2; try solve [fail_case].
       cbn [out_state rmap result_to_res Base.bind rbind fst snd] in *. specialize (W2 sg c2 eq_refl).
-      assert (Hgt : counter + 1 >? MAX_LOOP = true) by (apply Z.gtb_lt; lia).
+      assert (Hgt : counter + 1 >? MAX_LOOP = true) by (rewrite Z.gtb_ltb; apply Z.ltb_lt; lia).
       rewrite Hgt. rewrite limit_exit_emb. unfold cut_off. cbn [ML l_limit_note].
       split; [reflexivity|]. apply wf_out_fin. unfold wf, m_limit. cbn [world set_world]. rewrite add_log_flag. exact W2.
     - destruct (value_sim m cnd c Hwf) as [E1 W1]. { intros E. apply Hns. rewrite E. reflexivity. }
@@ -587,7 +587,7 @@ Section Level.
       destruct (HB body m c1 W1 Hok) as [E2 W2]. { intros E. apply Hns. rewrite E. reflexivity. }
       rewrite E2. destruct (blk (prog_of body) c1) as [[sg c2]|[s| |w]| |] eqn:R2; try solve [fail_case].
       cbn [out_state rmap result_to_res Base.bind rbind fst snd] in *. specialize (W2 sg c2 eq_refl).
-      assert (Hgt : counter + 1 >? MAX_LOOP = false) by (apply Z.gtb_ltb, Z.ltb_ge; lia).
+      assert (Hgt : counter + 1 >? MAX_LOOP = false) by (rewrite Z.gtb_ltb; apply Z.ltb_ge; lia).
       rewrite Hgt. rewrite st_flag_emb_sig.
       destruct sg; cbn [sig_code Z.eqb Pos.eqb] in *.
       + rewrite emb_sig_normal by exact W2. apply IH; [exact W2 | lia | lia | exact Hns].
@@ -596,4 +596,1175 @@ Section Level.
       + rewrite clear_emb_sig by exact W2. apply IH; [exact W2 | lia | lia | exact Hns].
       + split; [reflexivity | apply wf_out_fin; exact W2].
   Qed.
+
+  Lemma for_sim m cnd inc body line :
+    toks_ok inc = true -> toks_ok body = true -> forall left n counter c,
+    wf c -> counter + Z.of_nat left = MAX_LOOP -> (left < n)%nat ->
+    for_sem ML (funs_of ft) blk left (oexpr_of cnd) (prog_of inc) (prog_of body) line c <> Stuck ->
+    for_loop ec n cnd inc body line counter (emb ft m c)
+      = out_state ft m (for_sem ML (funs_of ft) blk left (oexpr_of cnd) (prog_of inc) (prog_of body) line c)
+    /\ wf_out (for_sem ML (funs_of ft) blk left (oexpr_of cnd) (prog_of inc) (prog_of body) line c).
+  Proof.
+    intros Hoki Hok. induction left as [|left IH]; intros n counter c Hwf Hc Hn Hns;
+      (destruct n as [|n]; [lia|]); cbn [for_loop for_sem] in *; cbn [ML l_vzero l_truth] in *.
+    - destruct (value_sim m cnd c Hwf) as [E1 W1]. { intros E. apply Hns. rewrite E. reflexivity. }
+      rewrite E1. destruct (EVO (Expr.SInt 0) (oexpr_of cnd) c) as [[v c1]|[s| |w]| |] eqn:R1; try solve [fail_case].
+      cbn [val_out rmap result_to_res Base.bind rbind fst snd] in *. specialize (W1 v c1 eq_refl).
+      destruct (Expr.to_b v); cbn [negb] in *.
+      2: { unfold out_state. cbn [rmap result_to_res]. rewrite emb_sig_normal by exact W1. split; [reflexivity | apply wf_out_fin; exact W1]. }
+      destruct (HB body m c1 W1 Hok) as [E2 W2]. { intros E. apply Hns. rewrite E. reflexivity. }
+      rewrite E2. destruct (blk (prog_of body) c1) as [[sg c2]|[s| |w]| |] eqn:R2; try solve [fail_case].
+      cbn [out_state rmap result_to_res Base.bind rbind fst snd] in *. specialize (W2 sg c2 eq_refl).
+      assert (Hgt : counter + 1 >? MAX_LOOP = true) by (rewrite Z.gtb_ltb; apply Z.ltb_lt; lia).
+      rewrite Hgt. rewrite limit_exit_emb. unfold cut_off. cbn [ML l_limit_note].
+      split; [reflexivity|]. apply wf_out_fin. unfold wf, m_limit. cbn [world set_world]. rewrite add_log_flag. exact W2.
+    - destruct (value_sim m cnd c Hwf) as [E1 W1]. { intros E. apply Hns. rewrite E. reflexivity. }
+      rewrite E1. destruct (EVO (Expr.SInt 0) (oexpr_of cnd) c) as [[v c1]|[s| |w]| |] eqn:R1; try solve [fail_case].
+      cbn [val_out rmap result_to_res Base.bind rbind fst snd] in *. specialize (W1 v c1 eq_refl).
+      destruct (Expr.to_b v); cbn [negb] in *.
+      2: { unfold out_state. cbn [rmap result_to_res]. rewrite emb_sig_normal by exact W1. split; [reflexivity | apply wf_out_fin; exact W1]. }
+      destruct (HB body m c1 W1 Hok) as [E2 W2]. { intros E. apply Hns. rewrite E. reflexivity. }
+      rewrite E2. destruct (blk (prog_of body) c1) as [[sg c2]|[s| |w]| |] eqn:R2; try solve [fail_case].
+      cbn [out_state rmap result_to_res Base.bind rbind fst snd] in *. specialize (W2 sg c2 eq_refl).
+      assert (Hgt : counter + 1 >? MAX_LOOP = false) by (rewrite Z.gtb_ltb; apply Z.ltb_ge; lia).
+      rewrite Hgt. rewrite st_flag_emb_sig.
+      destruct n as [|n']; [lia|].
+      (* the increment, then the next pass *)
+      assert (Hinc : rbind (blk (prog_of inc) c2)
+                       (fun r2 => match fst r2 with
+                                  | Normal => for_sem ML (funs_of ft) blk left (oexpr_of cnd) (prog_of inc) (prog_of body) line (snd r2)
+                                  | sg0 => Fin (sg0, snd r2)
+                                  end) <> Stuck ->
+              (do st3 <- ec inc (Ok (emb ft m c2)); for_loop ec (S n') cnd inc body line (counter + 1) st3)
+              = out_state ft m (rbind (blk (prog_of inc) c2)
+                       (fun r2 => match fst r2 with
+                                  | Normal => for_sem ML (funs_of ft) blk left (oexpr_of cnd) (prog_of inc) (prog_of body) line (snd r2)
+                                  | sg0 => Fin (sg0, snd r2)
+                                  end))
+              /\ wf_out (rbind (blk (prog_of inc) c2)
+                       (fun r2 => match fst r2 with
+                                  | Normal => for_sem ML (funs_of ft) blk left (oexpr_of cnd) (prog_of inc) (prog_of body) line (snd r2)
+                                  | sg0 => Fin (sg0, snd r2)
+                                  end))).
+      { intros Hns2. destruct (HB inc m c2 W2 Hoki) as [E3 W3]. { intros E. apply Hns2. rewrite E. reflexivity. }
+        rewrite E3. destruct (blk (prog_of inc) c2) as [[sg2 c3]|[s| |w]| |] eqn:R3; try solve [fail_case].
+        cbn [out_state rmap result_to_res Base.bind rbind fst snd] in *. specialize (W3 sg2 c3 eq_refl).
+        destruct sg2.
+        - rewrite emb_sig_normal by exact W3. apply IH; [exact W3 | lia | lia | exact Hns2].
+        - rewrite for_loop_halted by (rewrite st_flag_emb_sig; discriminate). split; [reflexivity | apply wf_out_fin; exact W3].
+        - rewrite for_loop_halted by (rewrite st_flag_emb_sig; discriminate). split; [reflexivity | apply wf_out_fin; exact W3].
+        - rewrite for_loop_halted by (rewrite st_flag_emb_sig; discriminate). split; [reflexivity | apply wf_out_fin; exact W3]. }
+      destruct sg; cbn [sig_code Z.eqb Pos.eqb] in *.
+      + rewrite emb_sig_normal by exact W2. apply Hinc. exact Hns.
+      + rewrite clear_emb_sig by exact W2. unfold out_state. cbn [rmap result_to_res]. rewrite emb_sig_normal by exact W2.
+        split; [reflexivity | apply wf_out_fin; exact W2].
+      + rewrite clear_emb_sig by exact W2. apply Hinc. exact Hns.
+      + rewrite (Hhalt _ _ _ R2) by (rewrite st_flag_emb_sig; discriminate). cbn [Base.bind].
+        rewrite for_loop_halted by (rewrite st_flag_emb_sig; discriminate).
+        split; [reflexivity | apply wf_out_fin; exact W2].
+  Qed.
+
+  Lemma dummy_keeps : BlockP.keeps_break_flag (fun _ _ => Unsupported U_SCHILD).
+  Proof. intros X s0 s2 E. discriminate E. Qed.
+
+  Lemma loop_fuel_succ : exists k, LOOP_FUEL = S k /\ (m_N < S k)%nat.
+  Proof. exists (Nat.pred LOOP_FUEL). unfold LOOP_FUEL, m_N, MAX_LOOP. split; lia. Qed.
+  Lemma m_N_eq : 0 + Z.of_nat m_N = MAX_LOOP.
+  Proof. unfold m_N, MAX_LOOP. lia. Qed.
+
+  Lemma wf_runtime_error c msg : wf c -> wf (set_world c (runtime_error (world c) msg)).
+  Proof. intros H. unfold wf, runtime_error. cbn [world set_world]. rewrite add_log_flag. exact H. Qed.
+
+  (* one statement *)
+  Lemma stmt_sim m t c :
+    wf c -> tok_ok t = true ->
+    exec_stmt ML (funs_of ft) blk (stmt_of t) c <> Stuck ->
+    sstep ec t (emb ft m c) = out_state ft m (exec_stmt ML (funs_of ft) blk (stmt_of t) c)
+    /\ wf_out (exec_stmt ML (funs_of ft) blk (stmt_of t) c).
+  Proof.
+    intros Hwf Hok Hns. destruct t as [ct|args line|k x init|x e|x d|cnd th el line|init cnd inc body line|cnd body line| | |e|id args];
+      cbn [stmt_of exec_stmt sstep] in *; cbn [ML l_vzero l_truth l_atom_sem l_print_out l_decl_note l_limit l_result_name l_view_of l_vincr] in *;
+      repeat match goal with
+             | |- context [map stmt_of ?l] => change (map stmt_of l) with (prog_of l) in *
+             | H : context [map stmt_of ?l] |- _ => change (map stmt_of l) with (prog_of l) in *
+             end.
+    - (* leaf *)
+      change (ss_song (emb ft m c)) with (world c). unfold m_atom in *.
+      destruct (step_song (fun _ _ => Unsupported U_SCHILD) ct (world c)) as [w|s| |w] eqn:Es;
+        cbn [res_to_result rbind Base.bind] in *; try solve [fail_case].
+      assert (Hw : wf (set_world c w)).
+      { unfold wf. cbn [world set_world]. rewrite (BlockP.step_song_break_flag _ dummy_keeps ct (world c) w Es). exact Hwf. }
+      unfold out_state. cbn [rmap result_to_res]. rewrite emb_sig_normal by exact Hw. rewrite song_emb.
+      split; [reflexivity | apply wf_out_fin; exact Hw].
+    - (* PRINT *)
+      destruct (args_sim m args c Hwf) as [E1 W1]. { intros E. apply Hns. rewrite E. reflexivity. }
+      rewrite E1. destruct (EVA (map oexpr_of args) c) as [[vs c1]|[s| |w]| |] eqn:R1; try solve [fail_case].
+      cbn [evs_out rmap result_to_res Base.bind rbind fst snd] in *. specialize (W1 vs c1 eq_refl).
+      assert (Hw : wf (set_world c1 (m_print line vs (world c1)))).
+      { unfold wf, m_print. cbn [world set_world]. rewrite add_log_flag. exact W1. }
+      unfold out_state. cbn [rmap result_to_res]. rewrite emb_sig_normal by exact Hw. rewrite log_emb.
+      split; [reflexivity | apply wf_out_fin; exact Hw].
+    - (* INT / STR *)
+      destruct (value_sim m init c Hwf) as [E1 W1]. { intros E. apply Hns. rewrite E. reflexivity. }
+      rewrite E1. destruct (EVO (Expr.SInt 0) (oexpr_of init) c) as [[v c1]|[s| |w]| |] eqn:R1; try solve [fail_case].
+      cbn [val_out rmap result_to_res Base.bind rbind fst snd] in *. specialize (W1 v c1 eq_refl).
+      assert (Hw : wf (bind_val ML x v (set_world c1 (m_decl k x v (world c1))))).
+      { unfold m_decl. destruct (k && is_arr v); [apply (wf_runtime_error c1 _ W1) | destruct c1; exact W1]. }
+      unfold out_state. cbn [rmap result_to_res]. rewrite emb_sig_normal by exact Hw.
+      split; [|apply wf_out_fin; exact Hw].
+      unfold m_decl. destruct (k && is_arr v); [|destruct c1; reflexivity]. reflexivity.
+    - (* X = e *)
+      destruct (value_sim m e c Hwf) as [E1 W1]. { intros E. apply Hns. rewrite E. reflexivity. }
+      rewrite E1. destruct (EVO (Expr.SInt 0) (oexpr_of e) c) as [[v c1]|[s| |w]| |] eqn:R1; try solve [fail_case].
+      cbn [val_out rmap result_to_res Base.bind rbind fst snd] in *. specialize (W1 v c1 eq_refl).
+      assert (Hw : wf (bind_val ML x v c1)) by exact W1.
+      unfold out_state. cbn [rmap result_to_res]. rewrite emb_sig_normal by exact Hw. rewrite insert_emb.
+      split; [reflexivity | apply wf_out_fin; exact Hw].
+    - (* X++ *)
+      unfold value_inc. change (ss_scopes (emb ft m c)) with (env c).
+      change (lookup ML x (env c)) with (vars_lookup x (env c)) in *.
+      destruct (vars_lookup x (env c)) as [[v|id|]|] eqn:El; cbn [view_vv] in *; try (stuck_contra Hns).
+      + assert (Hw : wf (bind_val ML x (m_incr v d) c)) by exact Hwf.
+        unfold out_state. cbn [rmap result_to_res]. rewrite emb_sig_normal by exact Hw.
+        split; [reflexivity | apply wf_out_fin; exact Hw].
+      + assert (Hw : wf (bind_val ML x (m_incr (Expr.SInt 0) d) c)) by exact Hwf.
+        unfold out_state. cbn [rmap result_to_res]. rewrite emb_sig_normal by exact Hw.
+        split; [reflexivity | apply wf_out_fin; exact Hw].
+    - (* IF *)
+      cbn [tok_ok bracket_free_tok andb] in Hok. apply andb_prop in Hok. destruct Hok as [Hth Hel].
+      destruct (value_sim m cnd c Hwf) as [E1 W1]. { intros E. apply Hns. rewrite E. reflexivity. }
+      rewrite E1. destruct (EVO (Expr.SInt 0) (oexpr_of cnd) c) as [[v c1]|[s| |w]| |] eqn:R1; try solve [fail_case].
+      cbn [val_out rmap result_to_res Base.bind rbind fst snd] in *. specialize (W1 v c1 eq_refl).
+      destruct (Expr.to_b v); [exact (HB th m c1 W1 Hth Hns) | exact (HB el m c1 W1 Hel Hns)].
+    - (* FOR *)
+      cbn [tok_ok bracket_free_tok andb] in Hok. apply andb_prop in Hok. destruct Hok as [Hok Hbody].
+      apply andb_prop in Hok. destruct Hok as [Hinit Hinc].
+      destruct (HB init m c Hwf Hinit) as [E1 W1]. { intros E. apply Hns. rewrite E. reflexivity. }
+      rewrite E1. destruct (blk (prog_of init) c) as [[sg c1]|[s| |w]| |] eqn:R1; try solve [fail_case].
+      cbn [out_state rmap result_to_res Base.bind rbind fst snd] in *. specialize (W1 sg c1 eq_refl).
+      destruct loop_fuel_succ as [kf [Ekf Hkf]]. rewrite Ekf.
+      destruct sg.
+      + rewrite emb_sig_normal by exact W1. apply for_sim; [exact Hinc | exact Hbody | exact W1 | exact m_N_eq | exact Hkf | exact Hns].
+      + rewrite for_loop_halted by (rewrite st_flag_emb_sig; discriminate). split; [reflexivity | apply wf_out_fin; exact W1].
+      + rewrite for_loop_halted by (rewrite st_flag_emb_sig; discriminate). split; [reflexivity | apply wf_out_fin; exact W1].
+      + rewrite for_loop_halted by (rewrite st_flag_emb_sig; discriminate). split; [reflexivity | apply wf_out_fin; exact W1].
+    - (* WHILE *)
+      cbn [tok_ok bracket_free_tok andb] in Hok.
+      destruct loop_fuel_succ as [kf [Ekf Hkf]]. rewrite Ekf.
+      apply while_sim; [exact Hok | exact Hwf | exact m_N_eq | exact Hkf | exact Hns].
+    - (* BREAK *) split; [reflexivity | apply wf_out_fin; exact Hwf].
+    - (* CONTINUE *) split; [reflexivity | apply wf_out_fin; exact Hwf].
+    - (* RETURN *)
+      destruct e as [t|].
+      + destruct (value_sim m (Some t) c Hwf) as [E1 W1]. { intros E. apply Hns. rewrite E. reflexivity. }
+        rewrite E1. destruct (EVO (Expr.SInt 0) (oexpr_of (Some t)) c) as [[v c1]|[s| |w]| |] eqn:R1; try solve [fail_case].
+        cbn [val_out rmap result_to_res Base.bind rbind fst snd oexpr_of option_map] in *. specialize (W1 v c1 eq_refl).
+        cbn [rbind fst snd]. rewrite insert_emb.
+        split; [reflexivity | apply wf_out_fin; exact W1].
+      + cbn [oexpr_of option_map]. split; [reflexivity | apply wf_out_fin; exact Hwf].
+    - (* a call statement *)
+      change (ss_funcs (emb ft m c)) with ft.
+      change (funs_of ft id) with (option_map fundef_of (nth_error ft id)) in *.
+      destruct (nth_error ft id) as [fd|] eqn:En; cbn [option_map] in *; [|stuck_contra Hns].
+      rewrite push_emb.
+      destruct (args_sim m args (push_frame c) Hwf) as [E1 W1]. { intros E. apply Hns. rewrite E. reflexivity. }
+      rewrite E1. destruct (EVA (map oexpr_of args) (push_frame c)) as [[vs c1]|[s| |w]| |] eqn:R1; try solve [fail_case].
+      cbn [evs_out rmap result_to_res Base.bind rbind fst snd] in *. specialize (W1 vs c1 eq_refl).
+      destruct (call_sim m fd vs c1 W1 (ft_body_ok id fd En)) as [E2 W2]. { intros E. apply Hns. rewrite E. reflexivity. }
+      rewrite E2. destruct (call_body ML blk (fundef_of fd) vs c1) as [[v c2]|[s| |w]| |] eqn:R2; try solve [fail_case].
+      unfold call_out, out_state. cbn [rmap result_to_res Base.bind rbind fst snd]. specialize (W2 v c2 eq_refl).
+      rewrite emb_sig_normal by exact W2. split; [reflexivity | apply wf_out_fin; exact W2].
+  Qed.
+
+  (* a block *)
+  Lemma seq_sim m : forall toks c,
+    wf c -> forallb tok_ok toks = true ->
+    exec_seq ML (funs_of ft) blk (prog_of toks) c <> Stuck ->
+    fold_halt (step_stok ec) toks (Ok (emb ft m c)) = out_state ft m (exec_seq ML (funs_of ft) blk (prog_of toks) c)
+    /\ wf_out (exec_seq ML (funs_of ft) blk (prog_of toks) c).
+  Proof.
+    induction toks as [|t r IH]; intros c Hwf Hok Hns.
+    - cbn [prog_of map exec_seq]. rewrite fold_halt_nil. unfold out_state. cbn [rmap result_to_res].
+      rewrite emb_sig_normal by exact Hwf. split; [reflexivity | apply wf_out_fin; exact Hwf].
+    - cbn [forallb] in Hok. apply andb_prop in Hok. destruct Hok as [Ht Hr].
+      change (prog_of (t :: r)) with (stmt_of t :: prog_of r) in *. cbn [exec_seq] in *.
+      rewrite fold_halt_cons.
+      2: { cbn [halted_s]. rewrite st_flag_emb. unfold wf in Hwf. rewrite Hwf. reflexivity. }
+      cbn [step_stok Base.bind].
+      destruct (stmt_sim m t c Hwf Ht) as [E1 W1]. { intros E. apply Hns. rewrite E. reflexivity. }
+      rewrite E1. destruct (exec_stmt ML (funs_of ft) blk (stmt_of t) c) as [[sg c1]|[s| |w]| |] eqn:R1;
+        try solve [rewrite fold_halt_halted by reflexivity; fail_case].
+      cbn [out_state rmap result_to_res rbind fst snd] in *. specialize (W1 sg c1 eq_refl).
+      destruct sg.
+      + rewrite emb_sig_normal by exact W1. apply IH; [exact W1 | exact Hr | exact Hns].
+      + rewrite fold_halt_halted by (cbn [halted_s]; rewrite st_flag_emb_sig; reflexivity). split; [reflexivity | apply wf_out_fin; exact W1].
+      + rewrite fold_halt_halted by (cbn [halted_s]; rewrite st_flag_emb_sig; reflexivity). split; [reflexivity | apply wf_out_fin; exact W1].
+      + rewrite fold_halt_halted by (cbn [halted_s]; rewrite st_flag_emb_sig; reflexivity). split; [reflexivity | apply wf_out_fin; exact W1].
+  Qed.
 End Level.
+
+(* ------------------------------------------------------------------------------------------------ *)
+(* 4. the main theorem                                                                                *)
+
+Lemma tok_ok_bracket_free t : tok_ok t = true -> bracket_free_tok t = true.
+Proof. destruct t; cbn [tok_ok]; intros H; apply andb_prop in H; apply H. Qed.
+Lemma toks_ok_parts l : toks_ok l = true -> forallb tok_ok l = true /\ forallb bracket_free_tok l = true /\ (length l < STEPS)%nat.
+Proof.
+  unfold toks_ok, blk_ok. intros H. apply andb_prop in H. destruct H as [H1 H2]. split; [exact H1|]. split.
+  - apply forallb_forall. intros t Ht. rewrite forallb_forall in H1. apply tok_ok_bracket_free, H1, Ht.
+  - apply Nat.ltb_lt. exact H2.
+Qed.
+
+Notation SEM ft := (sem ML (funs_of ft)).
+
+(* exec() of the model on the tokens of a structured script IS the meaning of the script: for every function table whose
+   bodies are blocks, every nesting budget n, every block (any nesting of IF / FOR / WHILE, calls, RETURN ...), every
+   configuration - unless the semantics gives the program no meaning (Stuck). *)
+Theorem exec_vs_sem ft : ft_ok ft = true ->
+  forall n toks m c, wf c -> toks_ok toks = true -> SEM ft n (prog_of toks) c <> Stuck ->
+  exec_s n toks (Ok (emb ft m c)) = out_state ft m (SEM ft n (prog_of toks) c) /\ wf_out (SEM ft n (prog_of toks) c).
+Proof.
+  intros Hft. induction n as [|n IH]; intros toks m c Hwf Hok Hns.
+  - split; [reflexivity | apply wf_out_other; intros x E; discriminate E].
+  - destruct (toks_ok_parts toks Hok) as [H1 [H2 H3]].
+    rewrite (exec_s_fold n toks _ H2 H3). cbn [sem] in *.
+    apply (seq_sim ft Hft (SEM ft n) (exec_s n)); [| | exact Hwf | exact H1 | exact Hns].
+    + intros b m' c' Hw Hb Hn. apply IH; assumption.
+    + intros b c' r E b' st Hst. destruct n as [|n']; [discriminate E|]. apply exec_s_halted. exact Hst.
+Qed.
+
+(* ------------------------------------------------------------------------------------------------ *)
+(* 5. facts about the meaning itself (generic in the language)                                        *)
+
+Section SemFacts.
+  Variables Name Atom Op Val World Bnd FId Err : Type.
+  Variable L : lang Name Atom Op Val World Bnd FId Err.
+  Variable funs : FId -> option (fundef Name Atom Op Val FId).
+
+  Notation gcfg := (cfg Name World Bnd).
+  Notation gstmt := (stmt Name Atom Op FId).
+  Notation gexpr := (expr Name Op).
+  Notation gres := (result Err).
+
+  (* ---- blk2 extends blk1: it agrees with blk1 wherever blk1 does not run out of fuel ---- *)
+  Definition extends {A B} (f g : A -> gcfg -> gres B) : Prop := forall a c, f a c <> NoFuel -> g a c = f a c.
+
+  Lemma rbind_ext {A B} (r1 r2 : gres A) (k1 k2 : A -> gres B) :
+    (r1 <> NoFuel -> r2 = r1) -> (forall a, r1 = Fin a -> k1 a <> NoFuel -> k2 a = k1 a) ->
+    rbind r1 k1 <> NoFuel -> rbind r2 k2 = rbind r1 k1.
+  Proof.
+    intros H1 H2 Hn. destruct r1 as [a|e| |]; cbn [rbind] in *.
+    - rewrite H1 by discriminate. cbn [rbind]. apply H2; [reflexivity | exact Hn].
+    - rewrite H1 by discriminate. reflexivity.
+    - rewrite H1 by discriminate. reflexivity.
+    - contradiction.
+  Qed.
+
+  Section Mono.
+    Variables blk1 blk2 : list gstmt -> gcfg -> gres (signal * gcfg).
+    Hypothesis Hext : extends blk1 blk2.
+
+    Lemma call_body_ext fd vs c :
+      call_body L blk1 fd vs c <> NoFuel -> call_body L blk2 fd vs c = call_body L blk1 fd vs c.
+    Proof.
+      unfold call_body. intros H. apply rbind_ext; [apply Hext | reflexivity | exact H].
+    Qed.
+
+    Lemma evals_ext (f g : gexpr -> gcfg -> gres (Val * gcfg)) l :
+      Forall (fun x => forall c, f x c <> NoFuel -> g x c = f x c) l ->
+      forall c, evals_with f l c <> NoFuel -> evals_with g l c = evals_with f l c.
+    Proof.
+      induction 1 as [|x r Hx Hr IH]; intros c Hn; [reflexivity|].
+      change (evals_with g (x :: r) c) with (rbind (g x c) (fun p => rbind (evals_with g r (snd p)) (fun q => Fin (fst p :: fst q, snd q)))).
+      change (evals_with f (x :: r) c) with (rbind (f x c) (fun p => rbind (evals_with f r (snd p)) (fun q => Fin (fst p :: fst q, snd q)))) in *.
+      apply rbind_ext; [apply Hx | | exact Hn].
+      intros p _ Hn2. apply rbind_ext; [apply IH | reflexivity | exact Hn2].
+    Qed.
+
+    Section ExprInd.
+      Variable P : gexpr -> Prop.
+      Hypothesis HOp : forall o args, Forall P args -> P (EOp o args).
+      Hypothesis HVar : forall x, P (EVar x).
+      Hypothesis HCall : forall f args, Forall P args -> P (ECall f args).
+      Fixpoint gexpr_ind' (e : gexpr) : P e :=
+        match e with
+        | EOp o args => HOp o args ((fix go (l : list gexpr) : Forall P l :=
+                          match l with [] => Forall_nil P | x :: r => Forall_cons x (gexpr_ind' x) (go r) end) args)
+        | EVar x => HVar x
+        | ECall f args => HCall f args ((fix go (l : list gexpr) : Forall P l :=
+                          match l with [] => Forall_nil P | x :: r => Forall_cons x (gexpr_ind' x) (go r) end) args)
+        end.
+    End ExprInd.
+
+    Lemma eval_ext : forall e c, eval L funs blk1 e c <> NoFuel -> eval L funs blk2 e c = eval L funs blk1 e c.
+    Proof.
+      apply (gexpr_ind' (fun e => forall c, eval L funs blk1 e c <> NoFuel -> eval L funs blk2 e c = eval L funs blk1 e c)).
+      - intros o args Hargs c Hn. cbn [eval] in *. apply rbind_ext; [apply evals_ext; exact Hargs | reflexivity | exact Hn].
+      - intros x c _. reflexivity.
+      - intros f args Hargs c Hn. cbn [eval] in *.
+        destruct (lookup L f (env c)) as [b|]; [|reflexivity]. destruct (l_view_of L b); try reflexivity.
+        destruct (funs f0) as [fd|]; [|reflexivity].
+        apply rbind_ext; [apply evals_ext; exact Hargs | | exact Hn].
+        intros p _ Hn2. apply call_body_ext. exact Hn2.
+    Qed.
+
+    Lemma eval_opt_ext d e c :
+      eval_opt L funs blk1 d e c <> NoFuel -> eval_opt L funs blk2 d e c = eval_opt L funs blk1 d e c.
+    Proof. destruct e; cbn [eval_opt]; [apply eval_ext | reflexivity]. Qed.
+
+    Lemma eval_args_ext l : forall c,
+      eval_args L funs blk1 l c <> NoFuel -> eval_args L funs blk2 l c = eval_args L funs blk1 l c.
+    Proof.
+      induction l as [|a r IH]; intros c Hn; [reflexivity|]. cbn [eval_args] in *.
+      apply rbind_ext; [apply eval_opt_ext | | exact Hn].
+      intros p _ Hn2. apply rbind_ext; [apply IH | reflexivity | exact Hn2].
+    Qed.
+
+    Lemma while_ext left cnd body line : forall c,
+      while_sem L funs blk1 left cnd body line c <> NoFuel ->
+      while_sem L funs blk2 left cnd body line c = while_sem L funs blk1 left cnd body line c.
+    Proof.
+      induction left as [|left IH]; intros c Hn; cbn [while_sem] in *.
+      - apply rbind_ext; [apply eval_opt_ext | | exact Hn]. intros p _ Hn2.
+        destruct (negb (l_truth L (fst p))); [reflexivity|].
+        apply rbind_ext; [apply Hext | reflexivity | exact Hn2].
+      - apply rbind_ext; [apply eval_opt_ext | | exact Hn]. intros p _ Hn2.
+        destruct (negb (l_truth L (fst p))); [reflexivity|].
+        apply rbind_ext; [apply Hext | | exact Hn2]. intros r _ Hn3.
+        destruct (fst r); try reflexivity; apply IH; exact Hn3.
+    Qed.
+
+    Lemma for_ext left cnd inc body line : forall c,
+      for_sem L funs blk1 left cnd inc body line c <> NoFuel ->
+      for_sem L funs blk2 left cnd inc body line c = for_sem L funs blk1 left cnd inc body line c.
+    Proof.
+      induction left as [|left IH]; intros c Hn; cbn [for_sem] in *.
+      - apply rbind_ext; [apply eval_opt_ext | | exact Hn]. intros p _ Hn2.
+        destruct (negb (l_truth L (fst p))); [reflexivity|].
+        apply rbind_ext; [apply Hext | reflexivity | exact Hn2].
+      - apply rbind_ext; [apply eval_opt_ext | | exact Hn]. intros p _ Hn2.
+        destruct (negb (l_truth L (fst p))); [reflexivity|].
+        apply rbind_ext; [apply Hext | | exact Hn2]. intros r _ Hn3.
+        destruct (fst r); try reflexivity;
+          (apply rbind_ext; [apply Hext | | exact Hn3]; intros r2 _ Hn4; destruct (fst r2); try reflexivity; apply IH; exact Hn4).
+    Qed.
+
+    Lemma exec_stmt_ext s c :
+      exec_stmt L funs blk1 s c <> NoFuel -> exec_stmt L funs blk2 s c = exec_stmt L funs blk1 s c.
+    Proof.
+      destruct s; cbn [exec_stmt]; intros Hn; try reflexivity.
+      - apply rbind_ext; [apply eval_args_ext | reflexivity | exact Hn].
+      - apply rbind_ext; [apply eval_opt_ext | reflexivity | exact Hn].
+      - apply rbind_ext; [apply eval_opt_ext | reflexivity | exact Hn].
+      - apply rbind_ext; [apply eval_opt_ext | | exact Hn]. intros p _ Hn2. apply Hext. exact Hn2.
+      - apply while_ext. exact Hn.
+      - apply rbind_ext; [apply Hext | | exact Hn]. intros r _ Hn2. destruct (fst r); try reflexivity. apply for_ext. exact Hn2.
+      - destruct e; [|reflexivity]. apply rbind_ext; [apply eval_opt_ext | reflexivity | exact Hn].
+      - destruct (funs f) as [fd|]; [|reflexivity].
+        apply rbind_ext; [apply eval_args_ext | | exact Hn]. intros p _ Hn2.
+        apply rbind_ext; [apply call_body_ext | reflexivity | exact Hn2].
+    Qed.
+
+    Lemma exec_seq_ext b : forall c,
+      exec_seq L funs blk1 b c <> NoFuel -> exec_seq L funs blk2 b c = exec_seq L funs blk1 b c.
+    Proof.
+      induction b as [|s r IH]; intros c Hn; [reflexivity|]. cbn [exec_seq] in *.
+      apply rbind_ext; [apply exec_stmt_ext | | exact Hn]. intros p _ Hn2.
+      destruct (fst p); try reflexivity. apply IH. exact Hn2.
+    Qed.
+  End Mono.
+
+  (* more fuel, same meaning *)
+  Theorem sem_mono : forall n b c, sem L funs n b c <> NoFuel -> sem L funs (S n) b c = sem L funs n b c.
+  Proof.
+    induction n as [|n IH]; intros b c Hn; [exfalso; apply Hn; reflexivity|].
+    change (sem L funs (S (S n)) b c) with (exec_seq L funs (sem L funs (S n)) b c).
+    change (sem L funs (S n) b c) with (exec_seq L funs (sem L funs n) b c) in *.
+    apply exec_seq_ext; [|exact Hn]. intros b' c' Hn'. apply IH. exact Hn'.
+  Qed.
+  Theorem sem_mono_le n n' b c : (n <= n')%nat -> sem L funs n b c <> NoFuel -> sem L funs n' b c = sem L funs n b c.
+  Proof.
+    induction 1 as [|k Hle IH]; intros Hn; [reflexivity|].
+    rewrite <- (IH Hn). apply sem_mono. rewrite (IH Hn). exact Hn.
+  Qed.
+End SemFacts.
+
+Section SemFacts2.
+  Variables Name Atom Op Val World Bnd FId Err : Type.
+  Variable L : lang Name Atom Op Val World Bnd FId Err.
+  Variable funs : FId -> option (fundef Name Atom Op Val FId).
+  Variable blk : list (stmt Name Atom Op FId) -> cfg Name World Bnd -> result Err (signal * cfg Name World Bnd).
+
+  Notation gcfg := (cfg Name World Bnd).
+  Notation gstmt := (stmt Name Atom Op FId).
+  Notation gres := (result Err).
+  Notation EVO := (eval_opt L funs blk).
+  Notation XS := (exec_stmt L funs blk).
+  Notation XQ := (exec_seq L funs blk).
+
+  (* ---- IF runs exactly one branch ---- *)
+  Lemma if_one_branch cnd th el c v c1 :
+    EVO (l_vzero L) cnd c = Fin (v, c1) ->
+    XS (If cnd th el) c = blk (if l_truth L v then th else el) c1.
+  Proof. intros E. cbn [exec_stmt]. rewrite E. reflexivity. Qed.
+
+  (* ---- sequences ---- *)
+  Lemma exec_seq_app a b c :
+    XQ (a ++ b) c = rbind (XQ a c) (fun p => match fst p with Normal => XQ b (snd p) | sg => Fin (sg, snd p) end).
+  Proof.
+    revert c. induction a as [|s r IH]; intros c.
+    - cbn [app exec_seq rbind fst snd]. reflexivity.
+    - cbn [app exec_seq]. destruct (XS s c) as [[sg c1]|e| |]; cbn [rbind fst snd]; try reflexivity.
+      destruct sg; try reflexivity. apply IH.
+  Qed.
+  Lemma exec_seq_signal s r c sg c1 : XS s c = Fin (sg, c1) -> sg <> Normal -> XQ (s :: r) c = Fin (sg, c1).
+  Proof. intros E H. cbn [exec_seq]. rewrite E. cbn [rbind fst snd]. destruct sg; try reflexivity. contradiction. Qed.
+
+  (* ---- k passes of a loop: the test holds, the body ends Normal or with CONTINUE ---- *)
+  Inductive passes (cnd : option (expr Name Op)) (body : list gstmt) : nat -> gcfg -> gcfg -> Prop :=
+  | passes_O : forall c, passes cnd body 0 c c
+  | passes_S : forall k c v c1 sg c2 c3,
+      EVO (l_vzero L) cnd c = Fin (v, c1) -> l_truth L v = true ->
+      blk body c1 = Fin (sg, c2) -> (sg = Normal \/ sg = Cont) ->
+      passes cnd body k c2 c3 -> passes cnd body (S k) c c3.
+
+  (* a loop whose test holds exactly k times (k within the limit) = k passes, then the failing test *)
+  Theorem while_unroll cnd body line : forall k left c ck v c',
+    passes cnd body k c ck -> (k <= left)%nat ->
+    EVO (l_vzero L) cnd ck = Fin (v, c') -> l_truth L v = false ->
+    while_sem L funs blk left cnd body line c = Fin (Normal, c').
+  Proof.
+    induction k as [|k IH]; intros left c ck v c' Hp Hk Ev Hv; inversion Hp; subst.
+    - destruct left; cbn [while_sem]; rewrite Ev; cbn [rbind fst snd]; rewrite Hv; reflexivity.
+    - destruct left as [|left]; [lia|]. cbn [while_sem].
+      match goal with H : EVO _ cnd c = Fin _ |- _ => rewrite H end. cbn [rbind fst snd].
+      match goal with H : l_truth L _ = true |- _ => rewrite H end. cbn [negb].
+      match goal with H : blk body _ = Fin _ |- _ => rewrite H end. cbn [rbind fst snd].
+      match goal with H : _ \/ _ |- _ => destruct H as [-> | ->] end; (eapply IH; [eassumption | lia | eassumption | assumption]).
+  Qed.
+
+  (* BREAK in pass k+1 leaves the loop, and only the loop *)
+  Theorem while_break cnd body line : forall k left c ck v c1 c2,
+    passes cnd body k c ck -> (k < left)%nat ->
+    EVO (l_vzero L) cnd ck = Fin (v, c1) -> l_truth L v = true -> blk body c1 = Fin (Brk, c2) ->
+    while_sem L funs blk left cnd body line c = Fin (Normal, c2).
+  Proof.
+    induction k as [|k IH]; intros left c ck v c1 c2 Hp Hk Ev Hv Hb; inversion Hp; subst.
+    - destruct left as [|left]; [lia|]. cbn [while_sem]. rewrite Ev. cbn [rbind fst snd]. rewrite Hv. cbn [negb].
+      rewrite Hb. reflexivity.
+    - destruct left as [|left]; [lia|]. cbn [while_sem].
+      match goal with H : EVO _ cnd c = Fin _ |- _ => rewrite H end. cbn [rbind fst snd].
+      match goal with H : l_truth L _ = true |- _ => rewrite H end. cbn [negb].
+      match goal with H : blk body _ = Fin _ |- _ => rewrite H end. cbn [rbind fst snd].
+      match goal with H : _ \/ _ |- _ => destruct H as [-> | ->] end; (eapply IH; [eassumption | lia | eassumption | assumption | assumption]).
+  Qed.
+
+  (* RETURN in pass k+1 ends the loop at once and stays raised *)
+  Theorem while_return cnd body line : forall k left c ck v c1 c2,
+    passes cnd body k c ck -> (k < left)%nat ->
+    EVO (l_vzero L) cnd ck = Fin (v, c1) -> l_truth L v = true -> blk body c1 = Fin (Ret, c2) ->
+    while_sem L funs blk left cnd body line c = Fin (Ret, c2).
+  Proof.
+    induction k as [|k IH]; intros left c ck v c1 c2 Hp Hk Ev Hv Hb; inversion Hp; subst.
+    - destruct left as [|left]; [lia|]. cbn [while_sem]. rewrite Ev. cbn [rbind fst snd]. rewrite Hv. cbn [negb].
+      rewrite Hb. reflexivity.
+    - destruct left as [|left]; [lia|]. cbn [while_sem].
+      match goal with H : EVO _ cnd c = Fin _ |- _ => rewrite H end. cbn [rbind fst snd].
+      match goal with H : l_truth L _ = true |- _ => rewrite H end. cbn [negb].
+      match goal with H : blk body _ = Fin _ |- _ => rewrite H end. cbn [rbind fst snd].
+      match goal with H : _ \/ _ |- _ => destruct H as [-> | ->] end; (eapply IH; [eassumption | lia | eassumption | assumption | assumption]).
+  Qed.
+
+  (* the limit: after `left` full passes one more pass is run, then the loop is cut off: ONE note is made, the signal of
+     that pass is dropped unless it is a RETURN, and execution continues behind the loop *)
+  Theorem while_limit cnd body line : forall left c cl v c1 sg c2,
+    passes cnd body left c cl ->
+    EVO (l_vzero L) cnd cl = Fin (v, c1) -> l_truth L v = true -> blk body c1 = Fin (sg, c2) ->
+    while_sem L funs blk left cnd body line c
+    = Fin (match sg with Ret => Ret | _ => Normal end, set_world c2 (l_limit_note L false line (world c2))).
+  Proof.
+    induction left as [|left IH]; intros c cl v c1 sg c2 Hp Ev Hv Hb; inversion Hp; subst.
+    - cbn [while_sem]. rewrite Ev. cbn [rbind fst snd]. rewrite Hv. cbn [negb]. rewrite Hb. reflexivity.
+    - cbn [while_sem].
+      match goal with H : EVO _ cnd c = Fin _ |- _ => rewrite H end. cbn [rbind fst snd].
+      match goal with H : l_truth L _ = true |- _ => rewrite H end. cbn [negb].
+      match goal with H : blk body ?x = Fin (?s, _), H2 : ?s = Normal \/ _ |- _ => rewrite H; destruct H2 as [-> | ->] end;
+        cbn [rbind fst snd]; (eapply IH; [eassumption | eassumption | assumption | eassumption]).
+  Qed.
+
+  (* a WHILE never lets BREAK / CONTINUE out *)
+  Theorem while_signals cnd body line : forall left c sg c',
+    while_sem L funs blk left cnd body line c = Fin (sg, c') -> sg = Normal \/ sg = Ret.
+  Proof.
+    induction left as [|left IH]; intros c sg c' H; cbn [while_sem] in H.
+    - destruct (EVO (l_vzero L) cnd c) as [[v c1]|e| |]; cbn [rbind fst snd] in H; try discriminate.
+      destruct (negb (l_truth L v)). { injection H as <- _. left; reflexivity. }
+      destruct (blk body c1) as [[s2 c2]|e| |]; cbn [rbind fst snd cut_off] in H; try discriminate.
+      injection H as <- _. destruct s2; [left|left|left|right]; reflexivity.
+    - destruct (EVO (l_vzero L) cnd c) as [[v c1]|e| |]; cbn [rbind fst snd] in H; try discriminate.
+      destruct (negb (l_truth L v)). { injection H as <- _. left; reflexivity. }
+      destruct (blk body c1) as [[s2 c2]|e| |]; cbn [rbind fst snd] in H; try discriminate.
+      destruct s2; try (injection H as <- _; auto; fail); eapply IH; exact H.
+  Qed.
+
+  (* ---- FOR: passes with the increment ---- *)
+  Inductive fpasses (cnd : option (expr Name Op)) (inc body : list gstmt) : nat -> gcfg -> gcfg -> Prop :=
+  | fpasses_O : forall c, fpasses cnd inc body 0 c c
+  | fpasses_S : forall k c v c1 sg c2 c3 c4,
+      EVO (l_vzero L) cnd c = Fin (v, c1) -> l_truth L v = true ->
+      blk body c1 = Fin (sg, c2) -> (sg = Normal \/ sg = Cont) ->
+      blk inc c2 = Fin (Normal, c3) ->            (* CONTINUE still runs the increment *)
+      fpasses cnd inc body k c3 c4 -> fpasses cnd inc body (S k) c c4.
+
+  Theorem for_unroll cnd inc body line : forall k left c ck v c',
+    fpasses cnd inc body k c ck -> (k <= left)%nat ->
+    EVO (l_vzero L) cnd ck = Fin (v, c') -> l_truth L v = false ->
+    for_sem L funs blk left cnd inc body line c = Fin (Normal, c').
+  Proof.
+    induction k as [|k IH]; intros left c ck v c' Hp Hk Ev Hv; inversion Hp; subst.
+    - destruct left; cbn [for_sem]; rewrite Ev; cbn [rbind fst snd]; rewrite Hv; reflexivity.
+    - destruct left as [|left]; [lia|]. cbn [for_sem].
+      match goal with H : EVO _ cnd c = Fin _ |- _ => rewrite H end. cbn [rbind fst snd].
+      match goal with H : l_truth L _ = true |- _ => rewrite H end. cbn [negb].
+      match goal with H : blk body _ = Fin _ |- _ => rewrite H end. cbn [rbind fst snd].
+      match goal with H : _ \/ _ |- _ => destruct H as [-> | ->] end;
+        (match goal with H : blk inc _ = Fin _ |- _ => rewrite H end; cbn [rbind fst snd];
+         eapply IH; [eassumption | lia | eassumption | assumption]).
+  Qed.
+
+  Theorem for_limit cnd inc body line : forall left c cl v c1 sg c2,
+    fpasses cnd inc body left c cl ->
+    EVO (l_vzero L) cnd cl = Fin (v, c1) -> l_truth L v = true -> blk body c1 = Fin (sg, c2) ->
+    for_sem L funs blk left cnd inc body line c
+    = Fin (match sg with Ret => Ret | _ => Normal end, set_world c2 (l_limit_note L true line (world c2))).
+  Proof.
+    induction left as [|left IH]; intros c cl v c1 sg c2 Hp Ev Hv Hb; inversion Hp; subst.
+    - cbn [for_sem]. rewrite Ev. cbn [rbind fst snd]. rewrite Hv. cbn [negb]. rewrite Hb. reflexivity.
+    - cbn [for_sem].
+      match goal with H : EVO _ cnd c = Fin _ |- _ => rewrite H end. cbn [rbind fst snd].
+      match goal with H : l_truth L _ = true |- _ => rewrite H end. cbn [negb].
+      match goal with H : blk body ?x = Fin (?s, _), H2 : ?s = Normal \/ _ |- _ => rewrite H; destruct H2 as [-> | ->] end;
+        cbn [rbind fst snd];
+        (match goal with H : blk inc _ = Fin _ |- _ => rewrite H end; cbn [rbind fst snd];
+         eapply IH; [eassumption | eassumption | assumption | eassumption]).
+  Qed.
+
+  (* ---- calls ---- *)
+  (* a call inside an expression runs the function its name is bound to *)
+  Lemma call_named f args c b id fd vs c1 :
+    lookup L f (env c) = Some b -> l_view_of L b = BFun id -> funs id = Some fd ->
+    evals_with (eval L funs blk) args (push_frame c) = Fin (vs, c1) ->
+    eval L funs blk (ECall f args) c = call_body L blk fd vs c1.
+  Proof. intros H1 H2 H3 H4. cbn [eval]. rewrite H1, H2, H3, H4. reflexivity. Qed.
+
+  (* a call statement runs the function it was resolved to, and raises nothing *)
+  Lemma statement_call id args c fd vs c1 :
+    funs id = Some fd -> eval_args L funs blk args (push_frame c) = Fin (vs, c1) ->
+    XS (CallS id args) c = rbind (call_body L blk fd vs c1) (fun q => Fin (Normal, snd q)).
+  Proof. intros H1 H2. cbn [exec_stmt]. rewrite H1, H2. reflexivity. Qed.
+  Lemma statement_call_signal id args c sg c' : XS (CallS id args) c = Fin (sg, c') -> sg = Normal.
+  Proof.
+    cbn [exec_stmt]. destruct (funs id) as [fd|]; [|discriminate].
+    destruct (eval_args L funs blk args (push_frame c)) as [[vs c1]|e| |]; cbn [rbind fst snd]; try discriminate.
+    destruct (call_body L blk fd vs c1) as [[v c2]|e| |]; cbn [rbind]; try discriminate.
+    intros H. injection H as <- _. reflexivity.
+  Qed.
+
+  (* whatever ends the body - its last statement, BREAK, CONTINUE or RETURN - ends at the call; the value is what Result is bound to *)
+  Lemma call_body_result fd vs c sg c2 fr rest :
+    blk (fd_body fd) (set_env c (ScriptSem.bind_params L (fd_params fd) 0 vs (env c))) = Fin (sg, c2) ->
+    env c2 = fr :: rest ->
+    call_body L blk fd vs c
+    = match lookup_frame L (l_result_name L) fr with
+      | None => Fin (l_vnone L, set_env c2 rest)
+      | Some b => match l_view_of L b with BVal v => Fin (v, set_env c2 rest) | _ => Stuck end
+      end.
+  Proof. intros H1 H2. unfold call_body. rewrite H1. cbn [rbind snd]. rewrite H2. reflexivity. Qed.
+
+  (* RETURN(e) = bind Result, raise Ret; the rest of the block is not run *)
+  Lemma return_ends_block e rest c v c1 :
+    eval L funs blk e c = Fin (v, c1) ->
+    XQ (Return (Some e) :: rest) c = Fin (Ret, bind_val L (l_result_name L) v c1).
+  Proof. intros H. cbn [exec_seq exec_stmt eval_opt]. rewrite H. reflexivity. Qed.
+  Lemma return_without_value rest c : XQ (Return None :: rest) c = Fin (Ret, c).
+  Proof. reflexivity. Qed.
+End SemFacts2.
+
+(* ---- scopes and defaults ---- *)
+Section ScopeFacts.
+  Variables Name Atom Op Val World Bnd FId Err : Type.
+  Variable L : lang Name Atom Op Val World Bnd FId Err.
+  Variable funs : FId -> option (fundef Name Atom Op Val FId).
+
+  Notation gcfg := (cfg Name World Bnd).
+  Notation gstmt := (stmt Name Atom Op FId).
+  Notation gexpr := (expr Name Op).
+
+  Lemma tl_bind (x : Name) (b : Bnd) e : tl (bind x b e) = tl e.
+  Proof. destruct e; reflexivity. Qed.
+  Lemma tl_bind_params ps : forall i vs e, tl (ScriptSem.bind_params L ps i vs e) = tl e.
+  Proof.
+    induction ps as [|[x d] r IH]; intros i vs e; [reflexivity|]. cbn [ScriptSem.bind_params]. rewrite IH. apply tl_bind.
+  Qed.
+
+  Section Level.
+    Variable blk : list gstmt -> gcfg -> result Err (signal * gcfg).
+    (* one level down, a block leaves every frame below the innermost one as it is *)
+    Hypothesis HT : forall b c sg c', blk b c = Fin (sg, c') -> tl (env c') = tl (env c).
+
+    Lemma call_body_env fd vs c v c' : call_body L blk fd vs c = Fin (v, c') -> env c' = tl (env c).
+    Proof.
+      unfold call_body. destruct (blk _ _) as [[sg c2]|e| |] eqn:E; cbn [rbind snd]; try discriminate.
+      apply HT in E. cbn [env set_env] in E. rewrite tl_bind_params in E.
+      destruct (env c2) as [|fr rest] eqn:Ee; [discriminate|]. cbn [tl] in E.
+      destruct (lookup_frame L (l_result_name L) fr) as [b|].
+      - destruct (l_view_of L b); try discriminate. intros H. injection H as _ <-. exact E.
+      - intros H. injection H as _ <-. exact E.
+    Qed.
+
+    Lemma evals_env (f : gexpr -> gcfg -> result Err (Val * gcfg)) l :
+      Forall (fun x => forall c v c', f x c = Fin (v, c') -> env c' = env c) l ->
+      forall c vs c', evals_with f l c = Fin (vs, c') -> env c' = env c.
+    Proof.
+      induction 1 as [|x r Hx Hr IH]; intros c vs c' H.
+      - injection H as _ <-. reflexivity.
+      - change (evals_with f (x :: r) c) with (rbind (f x c) (fun p => rbind (evals_with f r (snd p)) (fun q => Fin (fst p :: fst q, snd q)))) in H.
+        destruct (f x c) as [[v c1]|e| |] eqn:E1; cbn [rbind fst snd] in H; try discriminate.
+        destruct (evals_with f r c1) as [[ws c2]|e| |] eqn:E2; cbn [rbind fst snd] in H; try discriminate.
+        injection H as _ <-. rewrite (IH _ _ _ E2). exact (Hx _ _ _ E1).
+    Qed.
+
+    (* evaluating an expression - calls included - leaves ALL frames as they are *)
+    Lemma eval_env : forall e c v c', eval L funs blk e c = Fin (v, c') -> env c' = env c.
+    Proof.
+      apply (gexpr_ind' Name Op (fun e => forall c v c', eval L funs blk e c = Fin (v, c') -> env c' = env c)).
+      - intros o args Hargs c v c' H. cbn [eval] in H.
+        destruct (evals_with (eval L funs blk) args c) as [[vs c1]|e| |] eqn:E1; cbn [rbind fst snd] in H; try discriminate.
+        destruct (shadowed L o (env c1)); [discriminate|].
+        destruct (l_op_sem L o vs); cbn [rbind] in H; try discriminate. injection H as _ <-.
+        exact (evals_env _ args Hargs _ _ _ E1).
+      - intros x c v c' H. cbn [eval] in H. destruct (lookup L x (env c)) as [b|].
+        + destruct (l_view_of L b); try discriminate. injection H as _ <-. reflexivity.
+        + destruct (l_unbound L x); cbn [rbind] in H; try discriminate. injection H as _ <-. reflexivity.
+      - intros f args Hargs c v c' H. cbn [eval] in H.
+        destruct (lookup L f (env c)) as [b|]; [|discriminate]. destruct (l_view_of L b) as [|id|]; try discriminate.
+        destruct (funs id) as [fd|]; [|discriminate].
+        destruct (evals_with (eval L funs blk) args (push_frame c)) as [[vs c1]|e| |] eqn:E1; cbn [rbind fst snd] in H; try discriminate.
+        apply call_body_env in H. rewrite H. rewrite (evals_env _ args Hargs _ _ _ E1). reflexivity.
+    Qed.
+
+    Lemma eval_opt_env d e c v c' : eval_opt L funs blk d e c = Fin (v, c') -> env c' = env c.
+    Proof. destruct e; cbn [eval_opt]; [apply eval_env|]. intros H. injection H as _ <-. reflexivity. Qed.
+    Lemma eval_args_env l : forall c vs c', eval_args L funs blk l c = Fin (vs, c') -> env c' = env c.
+    Proof.
+      induction l as [|a r IH]; intros c vs c' H; cbn [eval_args] in H.
+      - injection H as _ <-. reflexivity.
+      - destruct (eval_opt L funs blk (l_vnone L) a c) as [[v c1]|e| |] eqn:E1; cbn [rbind fst snd] in H; try discriminate.
+        destruct (eval_args L funs blk r c1) as [[ws c2]|e| |] eqn:E2; cbn [rbind fst snd] in H; try discriminate.
+        injection H as _ <-. rewrite (IH _ _ _ E2). exact (eval_opt_env _ _ _ _ _ E1).
+    Qed.
+
+    Lemma while_tail left cnd body line : forall c sg c',
+      while_sem L funs blk left cnd body line c = Fin (sg, c') -> tl (env c') = tl (env c).
+    Proof.
+      induction left as [|left IH]; intros c sg c' H; cbn [while_sem] in H;
+        (destruct (eval_opt L funs blk (l_vzero L) cnd c) as [[v c1]|e| |] eqn:E1; cbn [rbind fst snd] in H; try discriminate;
+         apply eval_opt_env in E1; rewrite <- E1;
+         destruct (negb (l_truth L v)); [injection H as _ <-; reflexivity|];
+         destruct (blk body c1) as [[s2 c2]|e| |] eqn:E2; cbn [rbind fst snd] in H; try discriminate;
+         apply HT in E2; rewrite <- E2).
+      - unfold cut_off in H. injection H as _ <-. reflexivity.
+      - destruct s2; try (injection H as _ <-; reflexivity); apply (IH _ _ _ H).
+    Qed.
+
+    Lemma for_tail left cnd inc body line : forall c sg c',
+      for_sem L funs blk left cnd inc body line c = Fin (sg, c') -> tl (env c') = tl (env c).
+    Proof.
+      induction left as [|left IH]; intros c sg c' H; cbn [for_sem] in H;
+        (destruct (eval_opt L funs blk (l_vzero L) cnd c) as [[v c1]|e| |] eqn:E1; cbn [rbind fst snd] in H; try discriminate;
+         apply eval_opt_env in E1; rewrite <- E1;
+         destruct (negb (l_truth L v)); [injection H as _ <-; reflexivity|];
+         destruct (blk body c1) as [[s2 c2]|e| |] eqn:E2; cbn [rbind fst snd] in H; try discriminate;
+         apply HT in E2; rewrite <- E2).
+      - unfold cut_off in H. injection H as _ <-. reflexivity.
+      - destruct s2; try (injection H as _ <-; reflexivity);
+          (destruct (blk inc c2) as [[s3 c3]|e| |] eqn:E3; cbn [rbind fst snd] in H; try discriminate;
+           apply HT in E3; rewrite <- E3;
+           destruct s3; try (injection H as _ <-; reflexivity); apply (IH _ _ _ H)).
+    Qed.
+
+    (* a statement changes at most the innermost frame; a call statement changes no frame at all *)
+    Lemma exec_stmt_tail s c sg c' : exec_stmt L funs blk s c = Fin (sg, c') -> tl (env c') = tl (env c).
+    Proof.
+      destruct s; cbn [exec_stmt]; intros H.
+      - destruct (l_atom_sem L a (world c)); cbn [rbind] in H; try discriminate. injection H as _ <-. reflexivity.
+      - destruct (eval_args L funs blk args c) as [[vs c1]|e| |] eqn:E1; cbn [rbind fst snd] in H; try discriminate.
+        injection H as _ <-. cbn [env set_world]. rewrite (eval_args_env _ _ _ _ E1). reflexivity.
+      - destruct (eval_opt L funs blk (l_vzero L) init c) as [[v c1]|e| |] eqn:E1; cbn [rbind fst snd] in H; try discriminate.
+        injection H as _ <-. unfold bind_val. cbn [env set_env set_world]. rewrite tl_bind, (eval_opt_env _ _ _ _ _ E1). reflexivity.
+      - destruct (eval_opt L funs blk (l_vzero L) e c) as [[v c1]|e0| |] eqn:E1; cbn [rbind fst snd] in H; try discriminate.
+        injection H as _ <-. unfold bind_val. cbn [env set_env]. rewrite tl_bind, (eval_opt_env _ _ _ _ _ E1). reflexivity.
+      - destruct (lookup L x (env c)) as [b|].
+        + destruct (l_view_of L b); try discriminate. injection H as _ <-. unfold bind_val. cbn [env set_env]. apply tl_bind.
+        + injection H as _ <-. unfold bind_val. cbn [env set_env]. apply tl_bind.
+      - destruct (eval_opt L funs blk (l_vzero L) c0 c) as [[v c1]|e| |] eqn:E1; cbn [rbind fst snd] in H; try discriminate.
+        apply HT in H. rewrite H, (eval_opt_env _ _ _ _ _ E1). reflexivity.
+      - exact (while_tail _ _ _ _ _ _ _ H).
+      - destruct (blk init c) as [[s2 c2]|e| |] eqn:E2; cbn [rbind fst snd] in H; try discriminate.
+        apply HT in E2. rewrite <- E2. destruct s2; try (injection H as _ <-; reflexivity). exact (for_tail _ _ _ _ _ _ _ _ H).
+      - injection H as _ <-. reflexivity.
+      - injection H as _ <-. reflexivity.
+      - destruct e as [e|]; [|injection H as _ <-; reflexivity].
+        destruct (eval_opt L funs blk (l_vzero L) (Some e) c) as [[v c1]|e0| |] eqn:E1; cbn [rbind fst snd] in H; try discriminate.
+        injection H as _ <-. unfold bind_val. cbn [env set_env]. rewrite tl_bind, (eval_opt_env _ _ _ _ _ E1). reflexivity.
+      - destruct (funs f) as [fd|]; [|discriminate].
+        destruct (eval_args L funs blk args (push_frame c)) as [[vs c1]|e| |] eqn:E1; cbn [rbind fst snd] in H; try discriminate.
+        destruct (call_body L blk fd vs c1) as [[v c2]|e| |] eqn:E2; cbn [rbind fst snd] in H; try discriminate.
+        injection H as _ <-. apply call_body_env in E2. rewrite E2, (eval_args_env _ _ _ _ E1). reflexivity.
+    Qed.
+
+    Lemma statement_call_env f args c sg c' : exec_stmt L funs blk (CallS f args) c = Fin (sg, c') -> env c' = env c.
+    Proof.
+      cbn [exec_stmt]. intros H. destruct (funs f) as [fd|]; [|discriminate].
+      destruct (eval_args L funs blk args (push_frame c)) as [[vs c1]|e| |] eqn:E1; cbn [rbind fst snd] in H; try discriminate.
+      destruct (call_body L blk fd vs c1) as [[v c2]|e| |] eqn:E2; cbn [rbind fst snd] in H; try discriminate.
+      injection H as _ <-. apply call_body_env in E2. rewrite E2, (eval_args_env _ _ _ _ E1). reflexivity.
+    Qed.
+
+    Lemma exec_seq_tail b : forall c sg c', exec_seq L funs blk b c = Fin (sg, c') -> tl (env c') = tl (env c).
+    Proof.
+      induction b as [|s r IH]; intros c sg c' H; cbn [exec_seq] in H.
+      - injection H as _ <-. reflexivity.
+      - destruct (exec_stmt L funs blk s c) as [[s2 c2]|e| |] eqn:E; cbn [rbind fst snd] in H; try discriminate.
+        apply exec_stmt_tail in E. rewrite <- E. destruct s2; try (injection H as _ <-; reflexivity). exact (IH _ _ _ H).
+    Qed.
+  End Level.
+
+  (* every block, at every nesting budget: only the innermost frame can change *)
+  Theorem sem_tail : forall n b c sg c', sem L funs n b c = Fin (sg, c') -> tl (env c') = tl (env c).
+  Proof.
+    induction n as [|n IH]; intros b c sg c' H; [discriminate H|].
+    exact (exec_seq_tail (sem L funs n) IH b c sg c' H).
+  Qed.
+
+  (* ---- declared defaults ---- *)
+  Hypothesis name_eqb_refl : forall x, l_name_eqb L x x = true.
+  Hypothesis name_eqb_true : forall x y, l_name_eqb L x y = true -> x = y.
+
+  Lemma lookup_bind_same x b e : lookup L x (bind x b e) = Some b.
+  Proof. destruct e as [|fr r]; cbn [bind lookup lookup_frame]; rewrite name_eqb_refl; reflexivity. Qed.
+  Lemma lookup_bind_other x y b e : y <> x -> lookup L x (bind y b e) = lookup L x e.
+  Proof.
+    intros Hne. assert (E : l_name_eqb L y x = false).
+    { destruct (l_name_eqb L y x) eqn:E; [|reflexivity]. apply name_eqb_true in E. contradiction. }
+    destruct e as [|fr r]; cbn [bind lookup lookup_frame]; rewrite E; reflexivity.
+  Qed.
+  Lemma lookup_bind_params_other x ps : ~ In x (map fst ps) -> forall i vs e,
+    lookup L x (ScriptSem.bind_params L ps i vs e) = lookup L x e.
+  Proof.
+    induction ps as [|[y d] r IH]; intros Hn i vs e; [reflexivity|]. cbn [ScriptSem.bind_params map fst In] in *.
+    rewrite IH by tauto. apply lookup_bind_other. intros ->. tauto.
+  Qed.
+
+  (* parameter number j is bound to argument number j, or to its declared default when that argument is missing or has no value *)
+  Theorem bind_params_lookup ps : NoDup (map fst ps) -> forall i j x d vs e,
+    nth_error ps j = Some (x, d) ->
+    lookup L x (ScriptSem.bind_params L ps i vs e)
+    = Some (l_bnd_val L (if l_is_none L (nth (i + j) vs (l_vnone L)) then d else nth (i + j) vs (l_vnone L))).
+  Proof.
+    induction ps as [|[y dy] r IH]; intros Hnd i j x d vs e Hj; [destruct j; discriminate|].
+    cbn [map fst] in Hnd. inversion Hnd as [|? ? Hnin Hnd']; subst. cbn [ScriptSem.bind_params].
+    destruct j as [|j]; cbn [nth_error] in Hj.
+    - injection Hj as -> ->. rewrite lookup_bind_params_other by exact Hnin. rewrite lookup_bind_same, Nat.add_0_r. reflexivity.
+    - rewrite (IH Hnd' (S i) j x d vs _ Hj). replace (S i + j)%nat with (i + S j)%nat by lia. reflexivity.
+  Qed.
+End ScopeFacts.
+
+(* ---- the loop and the text of its passes ---- *)
+Section UnrollText.
+  Variables Name Atom Op Val World Bnd FId Err : Type.
+  Variable L : lang Name Atom Op Val World Bnd FId Err.
+  Variable funs : FId -> option (fundef Name Atom Op Val FId).
+  Notation gcfg := (cfg Name World Bnd).
+  Notation gstmt := (stmt Name Atom Op FId).
+
+  (* the body written k times *)
+  Fixpoint reps (k : nat) (body : list gstmt) : list gstmt :=
+    match k with O => [] | S k' => body ++ reps k' body end.
+
+  (* k passes in which the test holds and changes nothing, and the body runs to its end *)
+  Inductive straight (n : nat) (cnd : option (expr Name Op)) (body : list gstmt) : nat -> gcfg -> gcfg -> Prop :=
+  | straight_O : forall c, straight n cnd body 0 c c
+  | straight_S : forall k c v c2 c3,
+      eval_opt L funs (sem L funs n) (l_vzero L) cnd c = Fin (v, c) -> l_truth L v = true ->
+      sem L funs n body c = Fin (Normal, c2) ->
+      straight n cnd body k c2 c3 -> straight n cnd body (S k) c c3.
+
+  Lemma straight_passes n cnd body k c ck :
+    straight n cnd body k c ck -> passes Name Atom Op Val World Bnd FId Err L funs (sem L funs n) cnd body k c ck.
+  Proof.
+    induction 1 as [c|k c v c2 c3 Ev Hv Hb Hs IH]; [constructor|].
+    eapply passes_S; [exact Ev | exact Hv | exact Hb | left; reflexivity | exact IH].
+  Qed.
+
+  Lemma straight_text n cnd body k c ck :
+    straight n cnd body k c ck -> sem L funs (S n) (reps k body) c = Fin (Normal, ck).
+  Proof.
+    induction 1 as [c|k c v c2 c3 Ev Hv Hb Hs IH]; [reflexivity|].
+    cbn [reps]. change (sem L funs (S n) (body ++ reps k body) c) with (exec_seq L funs (sem L funs n) (body ++ reps k body) c).
+    rewrite exec_seq_app.
+    change (exec_seq L funs (sem L funs n) body c) with (sem L funs (S n) body c).
+    rewrite (sem_mono _ _ _ _ _ _ _ _ L funs n body c) by (rewrite Hb; discriminate).
+    rewrite Hb. cbn [rbind fst snd]. exact IH.
+  Qed.
+
+  (* WHILE(c){body} whose test holds exactly k times (k within the limit) means body written k times *)
+  Theorem loop_unroll_text n cnd body line k c ck v :
+    straight n cnd body k c ck -> (k <= l_limit L)%nat ->
+    eval_opt L funs (sem L funs n) (l_vzero L) cnd ck = Fin (v, ck) -> l_truth L v = false ->
+    exec_stmt L funs (sem L funs n) (While cnd body line) c = sem L funs (S n) (reps k body) c.
+  Proof.
+    intros Hs Hk Ev Hv. rewrite (straight_text _ _ _ _ _ _ Hs). cbn [exec_stmt].
+    exact (while_unroll _ _ _ _ _ _ _ _ L funs (sem L funs n) cnd body line k (l_limit L) c ck v ck (straight_passes _ _ _ _ _ _ Hs) Hk Ev Hv).
+  Qed.
+End UnrollText.
+
+(* ---- BREAK / CONTINUE inside a body: the rest of the pass is skipped ---- *)
+Section Skips.
+  Variables Name Atom Op Val World Bnd FId Err : Type.
+  Variable L : lang Name Atom Op Val World Bnd FId Err.
+  Variable funs : FId -> option (fundef Name Atom Op Val FId).
+  Variable blk : list (stmt Name Atom Op FId) -> cfg Name World Bnd -> result Err (signal * cfg Name World Bnd).
+
+  Lemma continue_skips pre post c c1 :
+    exec_seq L funs blk pre c = Fin (Normal, c1) ->
+    exec_seq L funs blk (pre ++ Continue :: post) c = Fin (Cont, c1).
+  Proof. intros H. rewrite exec_seq_app, H. reflexivity. Qed.
+  Lemma break_skips pre post c c1 :
+    exec_seq L funs blk pre c = Fin (Normal, c1) ->
+    exec_seq L funs blk (pre ++ Break :: post) c = Fin (Brk, c1).
+  Proof. intros H. rewrite exec_seq_app, H. reflexivity. Qed.
+  (* a guarded BREAK / CONTINUE / RETURN: IF(c){BREAK} raises the signal exactly when c holds *)
+  Lemma guarded_signal cnd s c v c1 :
+    eval_opt L funs blk (l_vzero L) cnd c = Fin (v, c1) ->
+    exec_stmt L funs blk (If cnd [s] []) c = if l_truth L v then blk [s] c1 else blk [] c1.
+  Proof. intros H. rewrite (if_one_branch _ _ _ _ _ _ _ _ L funs blk cnd [s] [] c v c1 H). destruct (l_truth L v); reflexivity. Qed.
+End Skips.
+
+(* ---- token-level statements about the model ---- *)
+Lemma if_one_branch_tokens ec cnd th el line st v st1 :
+  exec_value_o ec cnd st = Ok (v, st1) ->
+  sstep ec (SIf cnd th el line) st = ec (if Expr.to_b v then th else el) (Ok st1).
+Proof. intros H. cbn [sstep]. rewrite H. reflexivity. Qed.
+
+(* a call inside an expression executes the body of the function the name is bound to in the scope stack:
+   variables_get(name) = UserFunc(id)  =>  song.functions[id] *)
+Lemma call_named_tokens ec name args st id fd :
+  vars_lookup name (ss_scopes st) = Some (VFunc id) -> nth_error (ss_funcs st) id = Some fd ->
+  eval_tok ec (Expr.TCall true name args) st
+  = (do p <- (do q <- eval_list (eval_tok ec) opt_none args (st_set_needs (st_set_scopes st ([] :: ss_scopes st)) true);
+              Ok (fst q, st_set_needs (snd q) (ss_needs st)));
+     finish_call ec fd (fst p) (snd p)).
+Proof.
+  intros H1 H2. cbn [eval_tok]. rewrite H1, H2. cbn [ss_needs st_set_scopes].
+  destruct (eval_list (eval_tok ec) opt_none args _) as [[vs st1]| | |]; reflexivity.
+Qed.
+(* a call statement executes the body of the function whose id the lexer stored *)
+Lemma statement_call_tokens ec id args st fd :
+  nth_error (ss_funcs st) id = Some fd ->
+  sstep ec (SCall id args) st
+  = (do p <- exec_args_o ec args (st_set_scopes st ([] :: ss_scopes st)); do q <- finish_call ec fd (fst p) (snd p); Ok (snd q)).
+Proof.
+  intros H. cbn [sstep]. rewrite H. destruct (exec_args_o ec args _) as [[vs st1]| | |]; reflexivity.
+Qed.
+
+(* ---- the pipeline: what run_script computes is the meaning of the lexed program ---- *)
+Definition cfg_after_lex (ls : slex) : mcfg := mkCfg (ss_song (state_after_lex ls)) (sl_scopes ls).
+Lemma wf_after_lex ls : wf (cfg_after_lex ls).
+Proof. reflexivity. Qed.
+
+Theorem run_script_sem src toks ls :
+  lex_script src = Ok (toks, ls) -> ft_ok (sl_funcs ls) = true -> toks_ok toks = true ->
+  sem ML (funs_of (sl_funcs ls)) DEPTH (prog_of toks) (cfg_after_lex ls) <> Stuck ->
+  run_script src = out_state (sl_funcs ls) false (sem ML (funs_of (sl_funcs ls)) DEPTH (prog_of toks) (cfg_after_lex ls)).
+Proof.
+  intros Hl Hft Hok Hns. unfold run_script. rewrite Hl. cbn [Base.bind].
+  exact (proj1 (exec_vs_sem (sl_funcs ls) Hft DEPTH toks false (cfg_after_lex ls) (wf_after_lex ls) Hok Hns)).
+Qed.
+
+(* ---- an empty frame changes nothing: arguments are evaluated in the caller's frames ---- *)
+Section EmptyFrame.
+  Variables Name Atom Op Val World Bnd FId Err : Type.
+  Variable L : lang Name Atom Op Val World Bnd FId Err.
+  Variable funs : FId -> option (fundef Name Atom Op Val FId).
+
+  Notation gcfg := (cfg Name World Bnd).
+  Notation gstmt := (stmt Name Atom Op FId).
+  Notation gexpr := (expr Name Op).
+  Notation gres := (result Err).
+  Notation gframe := (frame Name Bnd).
+
+  (* e' is e with one empty frame inserted somewhere / somewhere below the innermost frame *)
+  Inductive ins : list gframe -> list gframe -> Prop :=
+  | ins_here : forall e, ins e ([] :: e)
+  | ins_cons : forall fr e e', ins e e' -> ins (fr :: e) (fr :: e').
+  Definition below (e e' : list gframe) : Prop := exists fr e0 e0', e = fr :: e0 /\ e' = fr :: e0' /\ ins e0 e0'.
+
+  Lemma below_ins e e' : below e e' -> ins e e'.
+  Proof. intros (fr & e0 & e0' & -> & -> & H). apply ins_cons. exact H. Qed.
+  Lemma lookup_ins x e e' : ins e e' -> lookup L x e' = lookup L x e.
+  Proof. induction 1 as [e|fr e e' H IH]; [reflexivity|]. cbn [lookup]. rewrite IH. reflexivity. Qed.
+  Lemma below_bind x b e e' : below e e' -> below (bind x b e) (bind x b e').
+  Proof. intros (fr & e0 & e0' & -> & -> & H). exists ((x, b) :: fr), e0, e0'. repeat split. exact H. Qed.
+  Lemma below_bind_params ps : forall i vs e e', below e e' -> below (ScriptSem.bind_params L ps i vs e) (ScriptSem.bind_params L ps i vs e').
+  Proof. induction ps as [|[x d] r IH]; intros i vs e e' H; [exact H|]. cbn [ScriptSem.bind_params]. apply IH, below_bind, H. Qed.
+  Lemma below_push e e' : ins e e' -> below ([] :: e) ([] :: e').
+  Proof. intros H. exists [], e, e'. repeat split. exact H. Qed.
+
+  (* results related case by case *)
+  Definition rrel {A} (R : A -> A -> Prop) (r r' : gres A) : Prop :=
+    match r, r' with
+    | Fin a, Fin a' => R a a'
+    | Fail e, Fail e' => e = e'
+    | Stuck, Stuck => True
+    | NoFuel, NoFuel => True
+    | _, _ => False
+    end.
+  Lemma rrel_bind {A B} (R : A -> A -> Prop) (S : B -> B -> Prop) r r' (k k' : A -> gres B) :
+    rrel R r r' -> (forall a a', R a a' -> rrel S (k a) (k' a')) -> rrel S (rbind r k) (rbind r' k').
+  Proof. destruct r, r'; cbn [rrel rbind]; intros H HK; try contradiction; try exact H; try exact I. apply HK, H. Qed.
+  Lemma rrel_strengthen {A} (R : A -> A -> Prop) (P P' : A -> Prop) r r' :
+    rrel R r r' -> (forall a, r = Fin a -> P a) -> (forall a, r' = Fin a -> P' a) ->
+    rrel (fun a a' => R a a' /\ P a /\ P' a') r r'.
+  Proof. destruct r, r'; cbn [rrel]; intros H H1 H2; try contradiction; try exact H. repeat split; [exact H | apply H1; reflexivity | apply H2; reflexivity]. Qed.
+  Lemma rrel_weaken {A} (R S : A -> A -> Prop) r r' : (forall a a', R a a' -> S a a') -> rrel R r r' -> rrel S r r'.
+  Proof. destruct r, r'; cbn [rrel]; intros H H1; try contradiction; try exact H1. apply H, H1. Qed.
+  Lemma rrel_refl_eq {A} (r : gres A) : rrel eq r r.
+  Proof. destruct r; cbn [rrel]; auto. Qed.
+
+  (* configurations: same world, frames related *)
+  Definition crel (Q : list gframe -> list gframe -> Prop) (c c' : gcfg) : Prop := world c = world c' /\ Q (env c) (env c').
+  (* results of expressions: same value, same world, frames as at the start *)
+  Definition erel {A} (c c' : gcfg) (p p' : A * gcfg) : Prop :=
+    fst p = fst p' /\ world (snd p) = world (snd p') /\ env (snd p) = env c /\ env (snd p') = env c'.
+  Definition srel (p p' : signal * gcfg) : Prop := fst p = fst p' /\ crel below (snd p) (snd p').
+
+  Section Level.
+    Variable blk : list gstmt -> gcfg -> gres (signal * gcfg).
+    Hypothesis HT : forall b c sg c', blk b c = Fin (sg, c') -> tl (env c') = tl (env c).
+    Hypothesis HBk : forall b c c', crel below c c' -> rrel srel (blk b c) (blk b c').
+
+    Lemma call_body_ins fd vs c c' :
+      crel below c c' ->
+      rrel (fun p p' => fst p = fst p' /\ world (snd p) = world (snd p') /\ env (snd p) = tl (env c) /\ env (snd p') = tl (env c'))
+           (call_body L blk fd vs c) (call_body L blk fd vs c').
+    Proof.
+      intros [Hw Hb].
+      assert (H0 : rrel (fun p p' => fst p = fst p' /\ world (snd p) = world (snd p')) (call_body L blk fd vs c) (call_body L blk fd vs c')).
+      { unfold call_body. eapply rrel_bind.
+        - apply HBk. split; [exact Hw|]. cbn [env set_env]. apply below_bind_params, Hb.
+        - intros [sg c2] [sg' c2'] [_ [Hw2 (fr & e0 & e0' & E1 & E2 & Hi)]]. cbn [fst snd] in *. rewrite E1, E2.
+          destruct (lookup_frame L (l_result_name L) fr) as [b|].
+          + destruct (l_view_of L b); cbn [rrel]; auto.
+          + cbn [rrel]. auto. }
+      eapply rrel_weaken; [|apply (rrel_strengthen _ (fun p => env (snd p) = tl (env c)) (fun p => env (snd p) = tl (env c')) _ _ H0)].
+      - intros p p' [[H1 H2] [H3 H4]]. auto.
+      - intros [v c2] E. exact (call_body_env _ _ _ _ _ _ _ _ L blk HT fd vs c v c2 E).
+      - intros [v c2] E. exact (call_body_env _ _ _ _ _ _ _ _ L blk HT fd vs c' v c2 E).
+    Qed.
+
+    Lemma evals_ins (f : gexpr -> gcfg -> gres (Val * gcfg)) l :
+      Forall (fun x => forall c c', crel ins c c' -> rrel (erel c c') (f x c) (f x c')) l ->
+      forall c c', crel ins c c' -> rrel (erel c c') (evals_with f l c) (evals_with f l c').
+    Proof.
+      induction 1 as [|x r Hx Hr IH]; intros c c' Hc.
+      - cbn [evals_with rrel]. destruct Hc as [Hw _]. repeat split; auto.
+      - change (evals_with f (x :: r) c) with (rbind (f x c) (fun p => rbind (evals_with f r (snd p)) (fun q => Fin (fst p :: fst q, snd q)))).
+        change (evals_with f (x :: r) c') with (rbind (f x c') (fun p => rbind (evals_with f r (snd p)) (fun q => Fin (fst p :: fst q, snd q)))).
+        eapply rrel_bind; [apply Hx, Hc|].
+        intros [v c1] [v' c1'] (Ev & Hw1 & E1 & E1'). cbn [fst snd] in *.
+        eapply rrel_bind; [apply (IH c1 c1'); split; [exact Hw1 | rewrite E1, E1'; apply Hc]|].
+        intros [vs c2] [vs' c2'] (Evs & Hw2 & E2 & E2'). cbn [fst snd rrel] in *.
+        repeat split; cbn [fst snd]; [rewrite Ev, Evs; reflexivity | exact Hw2 | rewrite E2, E1; reflexivity | rewrite E2', E1'; reflexivity].
+    Qed.
+
+    Lemma eval_ins : forall e c c', crel ins c c' -> rrel (erel c c') (eval L funs blk e c) (eval L funs blk e c').
+    Proof.
+      apply (gexpr_ind' Name Op (fun e => forall c c', crel ins c c' -> rrel (erel c c') (eval L funs blk e c) (eval L funs blk e c'))).
+      - intros o args Hargs c c' Hc. cbn [eval]. eapply rrel_bind; [apply evals_ins; [exact Hargs | exact Hc]|].
+        intros [vs c1] [vs' c1'] (Ev & Hw1 & E1 & E1'). cbn [fst snd] in *. subst vs'.
+        assert (Es : shadowed L o (env c1') = shadowed L o (env c1)).
+        { unfold shadowed. destruct (l_op_name L o); [|reflexivity]. rewrite E1, E1', (lookup_ins _ _ _ (proj2 Hc)). reflexivity. }
+        rewrite Es. destruct (shadowed L o (env c1)); [exact I|].
+        destruct (l_op_sem L o vs); cbn [rbind rrel]; auto. repeat split; auto.
+      - intros x c c' [Hw Hi]. cbn [eval]. rewrite (lookup_ins x _ _ Hi).
+        destruct (lookup L x (env c)) as [b|].
+        + destruct (l_view_of L b); cbn [rrel]; auto. repeat split; auto.
+        + destruct (l_unbound L x); cbn [rbind rrel]; auto. repeat split; auto.
+      - intros f args Hargs c c' [Hw Hi]. cbn [eval]. rewrite (lookup_ins f _ _ Hi).
+        destruct (lookup L f (env c)) as [b|]; [|exact I]. destruct (l_view_of L b) as [|id|]; try exact I.
+        destruct (funs id) as [fd|]; [|exact I].
+        eapply rrel_bind.
+        + apply (evals_ins _ args Hargs (push_frame c) (push_frame c')). split; [exact Hw|]. cbn [env push_frame set_env]. apply ins_cons, Hi.
+        + intros [vs c1] [vs' c1'] (Ev & Hw1 & E1 & E1'). cbn [fst snd] in *. subst vs'.
+          eapply rrel_weaken; [|apply (call_body_ins fd vs c1 c1')].
+          * intros p p' (H1 & H2 & H3 & H4). unfold erel. rewrite H3, H4, E1, E1'. cbn [env push_frame set_env tl]. auto.
+          * split; [exact Hw1|]. rewrite E1, E1'. cbn [env push_frame set_env]. apply below_push, Hi.
+    Qed.
+
+    Lemma eval_opt_ins d e c c' : crel ins c c' -> rrel (erel c c') (eval_opt L funs blk d e c) (eval_opt L funs blk d e c').
+    Proof. intros Hc. destruct e; cbn [eval_opt]; [apply eval_ins, Hc|]. cbn [rrel]. destruct Hc. repeat split; auto. Qed.
+    Lemma eval_args_ins l : forall c c', crel ins c c' -> rrel (erel c c') (eval_args L funs blk l c) (eval_args L funs blk l c').
+    Proof.
+      induction l as [|a r IH]; intros c c' Hc; cbn [eval_args].
+      - cbn [rrel]. destruct Hc. repeat split; auto.
+      - eapply rrel_bind; [apply eval_opt_ins, Hc|].
+        intros [v c1] [v' c1'] (Ev & Hw1 & E1 & E1'). cbn [fst snd] in *.
+        eapply rrel_bind; [apply (IH c1 c1'); split; [exact Hw1 | rewrite E1, E1'; apply Hc]|].
+        intros [vs c2] [vs' c2'] (Evs & Hw2 & E2 & E2'). cbn [fst snd rrel] in *.
+        repeat split; cbn [fst snd]; [rewrite Ev, Evs; reflexivity | exact Hw2 | rewrite E2, E1; reflexivity | rewrite E2', E1'; reflexivity].
+    Qed.
+
+    (* from an expression result back to related configurations *)
+    Lemma erel_below {A} c c' (p p' : A * gcfg) : crel below c c' -> erel c c' p p' -> crel below (snd p) (snd p').
+    Proof. intros [_ Hb] (_ & Hw & E & E'). split; [exact Hw | rewrite E, E'; exact Hb]. Qed.
+    Lemma crel_below_ins c c' : crel below c c' -> crel ins c c'.
+    Proof. intros [Hw Hb]. split; [exact Hw | apply below_ins, Hb]. Qed.
+    Lemma crel_bind_val x v c c' : crel below c c' -> crel below (bind_val L x v c) (bind_val L x v c').
+    Proof. intros [Hw Hb]. split; [exact Hw | apply below_bind, Hb]. Qed.
+    Lemma crel_set_world c c' (g : World -> World) : crel below c c' -> crel below (set_world c (g (world c))) (set_world c' (g (world c'))).
+    Proof. intros [Hw Hb]. split; [cbn [world set_world]; rewrite Hw; reflexivity | exact Hb]. Qed.
+
+    Lemma while_ins left cnd body line : forall c c', crel below c c' ->
+      rrel srel (while_sem L funs blk left cnd body line c) (while_sem L funs blk left cnd body line c').
+    Proof.
+      induction left as [|left IH]; intros c c' Hc; cbn [while_sem];
+        (eapply rrel_bind; [apply eval_opt_ins, crel_below_ins, Hc|];
+         intros p p' Hp; pose proof (erel_below _ _ _ _ Hc Hp) as Hc1; destruct Hp as (Ev & _); rewrite <- Ev;
+         destruct (negb (l_truth L (fst p))); [split; [reflexivity | exact Hc1]|];
+         eapply rrel_bind; [apply HBk, Hc1|]; intros r r' [Es Hc2]; rewrite <- Es).
+      - unfold cut_off. split; [reflexivity|]. cbn [fst snd]. apply (crel_set_world _ _ (l_limit_note L false line)), Hc2.
+      - destruct (fst r); try (split; [reflexivity | exact Hc2]); apply IH, Hc2.
+    Qed.
+
+    Lemma for_ins left cnd inc body line : forall c c', crel below c c' ->
+      rrel srel (for_sem L funs blk left cnd inc body line c) (for_sem L funs blk left cnd inc body line c').
+    Proof.
+      induction left as [|left IH]; intros c c' Hc; cbn [for_sem];
+        (eapply rrel_bind; [apply eval_opt_ins, crel_below_ins, Hc|];
+         intros p p' Hp; pose proof (erel_below _ _ _ _ Hc Hp) as Hc1; destruct Hp as (Ev & _); rewrite <- Ev;
+         destruct (negb (l_truth L (fst p))); [split; [reflexivity | exact Hc1]|];
+         eapply rrel_bind; [apply HBk, Hc1|]; intros r r' [Es Hc2]; rewrite <- Es).
+      - unfold cut_off. split; [reflexivity|]. cbn [fst snd]. apply (crel_set_world _ _ (l_limit_note L true line)), Hc2.
+      - destruct (fst r); try (split; [reflexivity | exact Hc2]);
+          (eapply rrel_bind; [apply HBk, Hc2|]; intros r2 r2' [Es2 Hc3]; rewrite <- Es2;
+           destruct (fst r2); try (split; [reflexivity | exact Hc3]); apply IH, Hc3).
+    Qed.
+
+    Lemma exec_stmt_ins s c c' : crel below c c' -> rrel srel (exec_stmt L funs blk s c) (exec_stmt L funs blk s c').
+    Proof.
+      intros Hc. pose proof (crel_below_ins _ _ Hc) as Hi. destruct s; cbn [exec_stmt].
+      - destruct Hc as [Hw Hb]. rewrite <- Hw. destruct (l_atom_sem L a (world c)); cbn [rbind rrel]; auto.
+        split; [reflexivity | split; [reflexivity | exact Hb]].
+      - eapply rrel_bind; [apply eval_args_ins, Hi|]. intros p p' Hp. pose proof (erel_below _ _ _ _ Hc Hp) as Hc1.
+        destruct Hp as (Ev & _). rewrite <- Ev. split; [reflexivity|]. cbn [fst snd]. apply (crel_set_world _ _ (l_print_out L line (fst p))), Hc1.
+      - eapply rrel_bind; [apply eval_opt_ins, Hi|]. intros p p' Hp. pose proof (erel_below _ _ _ _ Hc Hp) as Hc1.
+        destruct Hp as (Ev & _). rewrite <- Ev. split; [reflexivity|]. cbn [fst snd].
+        apply crel_bind_val. apply (crel_set_world _ _ (l_decl_note L kind x (fst p))), Hc1.
+      - eapply rrel_bind; [apply eval_opt_ins, Hi|]. intros p p' Hp. pose proof (erel_below _ _ _ _ Hc Hp) as Hc1.
+        destruct Hp as (Ev & _). rewrite <- Ev. split; [reflexivity|]. cbn [fst snd]. apply crel_bind_val, Hc1.
+      - rewrite (lookup_ins x _ _ (proj2 Hi)). destruct (lookup L x (env c)) as [b|].
+        + destruct (l_view_of L b); cbn [rrel]; auto. split; [reflexivity | apply crel_bind_val, Hc].
+        + split; [reflexivity | apply crel_bind_val, Hc].
+      - eapply rrel_bind; [apply eval_opt_ins, Hi|]. intros p p' Hp. pose proof (erel_below _ _ _ _ Hc Hp) as Hc1.
+        destruct Hp as (Ev & _). rewrite <- Ev. apply HBk, Hc1.
+      - apply while_ins, Hc.
+      - eapply rrel_bind; [apply HBk, Hc|]. intros r r' [Es Hc2]. rewrite <- Es.
+        destruct (fst r); try (split; [reflexivity | exact Hc2]). apply for_ins, Hc2.
+      - split; [reflexivity | exact Hc].
+      - split; [reflexivity | exact Hc].
+      - destruct e as [e|]; [|split; [reflexivity | exact Hc]].
+        eapply rrel_bind; [apply (eval_opt_ins (l_vzero L) (Some e)), Hi|]. intros p p' Hp. pose proof (erel_below _ _ _ _ Hc Hp) as Hc1.
+        destruct Hp as (Ev & _). rewrite <- Ev. split; [reflexivity|]. cbn [fst snd]. apply crel_bind_val, Hc1.
+      - destruct (funs f) as [fd|]; [|exact I].
+        assert (Hp0 : crel ins (push_frame c) (push_frame c')).
+        { destruct Hi as [Hw Hi]. split; [exact Hw | cbn [env push_frame set_env]; apply ins_cons, Hi]. }
+        eapply rrel_bind; [apply eval_args_ins, Hp0|].
+        intros [vs c1] [vs' c1'] (Ev & Hw1 & E1 & E1'). cbn [fst snd] in *. subst vs'.
+        eapply rrel_bind; [apply (call_body_ins fd vs c1 c1')|].
+        + split; [exact Hw1|]. rewrite E1, E1'. cbn [env push_frame set_env]. apply below_push, Hi.
+        + intros [v c2] [v' c2'] (_ & Hw2 & E2 & E2'). cbn [fst snd rrel] in *. split; [reflexivity|]. split; [exact Hw2|].
+          cbn [snd]. rewrite E2, E2', E1, E1'. cbn [env push_frame set_env tl]. apply Hc.
+    Qed.
+
+    Lemma exec_seq_ins b : forall c c', crel below c c' -> rrel srel (exec_seq L funs blk b c) (exec_seq L funs blk b c').
+    Proof.
+      induction b as [|s r IH]; intros c c' Hc; cbn [exec_seq].
+      - split; [reflexivity | exact Hc].
+      - eapply rrel_bind; [apply exec_stmt_ins, Hc|]. intros p p' [Es Hc1]. rewrite <- Es.
+        destruct (fst p); try (split; [reflexivity | exact Hc1]). apply IH, Hc1.
+    Qed.
+  End Level.
+
+  Theorem sem_ins : forall n b c c', crel below c c' -> rrel srel (sem L funs n b c) (sem L funs n b c').
+  Proof.
+    induction n as [|n IH]; intros b c c' Hc; [exact I|].
+    exact (exec_seq_ins (sem L funs n) (sem_tail _ _ _ _ _ _ _ _ L funs n) IH b c c' Hc).
+  Qed.
+
+  Definition gmap {A B} (f : A -> B) (r : gres A) : gres B :=
+    match r with Fin a => Fin (f a) | Fail e => Fail e | Stuck => Stuck | NoFuel => NoFuel end.
+
+  Lemma erel_push_eq {A} (c : gcfg) (r r' : gres (A * gcfg)) :
+    rrel (erel c (push_frame c)) r r' -> r' = gmap (fun p => (fst p, push_frame (snd p))) r.
+  Proof.
+    destruct r as [[a c1]| | |], r' as [[a' c1']| | |]; cbn [rrel gmap]; intros H; try contradiction; try reflexivity; try (rewrite H; reflexivity).
+    destruct H as (Ea & Hw & E1 & E1'). cbn [fst snd] in *. subst a'. f_equal. f_equal.
+    destruct c1 as [w1 e1], c1' as [w1' e1']. cbn [world env push_frame set_env] in *. subst. reflexivity.
+  Qed.
+
+  (* the arguments of a call are evaluated in the CALLER's frames: evaluating them under the callee's fresh (still empty) frame
+     gives, argument by argument, the values and effects they have in the caller's configuration - for any expressions, nested
+     calls included.  (All of them are evaluated before the first parameter is bound: see eval / exec_stmt CallS.) *)
+  Theorem args_in_caller_frames n args c :
+    evals_with (eval L funs (sem L funs n)) args (push_frame c)
+    = gmap (fun p => (fst p, push_frame (snd p))) (evals_with (eval L funs (sem L funs n)) args c).
+  Proof.
+    apply (erel_push_eq c). apply evals_ins.
+    - apply Forall_forall. intros x _ c0 c0' H0.
+      exact (eval_ins (sem L funs n) (sem_tail _ _ _ _ _ _ _ _ L funs n) (sem_ins n) x c0 c0' H0).
+    - split; [reflexivity | apply ins_here].
+  Qed.
+  Theorem stmt_args_in_caller_frames n args c :
+    eval_args L funs (sem L funs n) args (push_frame c)
+    = gmap (fun p => (fst p, push_frame (snd p))) (eval_args L funs (sem L funs n) args c).
+  Proof.
+    apply (erel_push_eq c). apply (eval_args_ins (sem L funs n) (sem_tail _ _ _ _ _ _ _ _ L funs n) (sem_ins n)).
+    split; [reflexivity | apply ins_here].
+  Qed.
+End EmptyFrame.
+
+Section CallValues.
+  Variables Name Atom Op Val World Bnd FId Err : Type.
+  Variable L : lang Name Atom Op Val World Bnd FId Err.
+  Variable funs : FId -> option (fundef Name Atom Op Val FId).
+
+  (* a call binds its parameters to the values the argument expressions have in the caller's configuration (evaluated left to
+     right, each in the configuration left by the previous one), whatever the names of the parameters *)
+  Theorem call_in_caller_scope n f args (c : cfg Name World Bnd) b id fd vs c1 :
+    lookup L f (env c) = Some b -> l_view_of L b = BFun id -> funs id = Some fd ->
+    evals_with (eval L funs (sem L funs n)) args c = Fin (vs, c1) ->
+    eval L funs (sem L funs n) (ECall f args) c = call_body L (sem L funs n) fd vs (push_frame c1).
+  Proof.
+    intros H1 H2 H3 H4. apply (call_named _ _ _ _ _ _ _ _ L funs (sem L funs n) f args c b id fd vs (push_frame c1) H1 H2 H3).
+    rewrite (args_in_caller_frames _ _ _ _ _ _ _ _ L funs n args c), H4. reflexivity.
+  Qed.
+  Theorem statement_call_in_caller_scope n id args (c : cfg Name World Bnd) fd vs c1 :
+    funs id = Some fd -> eval_args L funs (sem L funs n) args c = Fin (vs, c1) ->
+    exec_stmt L funs (sem L funs n) (CallS id args) c
+    = rbind (call_body L (sem L funs n) fd vs (push_frame c1)) (fun q => Fin (Normal, snd q)).
+  Proof.
+    intros H1 H2. apply (statement_call _ _ _ _ _ _ _ _ L funs (sem L funs n) id args c fd vs (push_frame c1) H1).
+    rewrite (stmt_args_in_caller_frames _ _ _ _ _ _ _ _ L funs n args c), H2. reflexivity.
+  Qed.
+End CallValues.
